@@ -137,6 +137,29 @@ def outer(func, %(outer)s):
     return func(%(args)s)
 '''
 
+# the forwarding function is a method, the partial is built over the BOUND method (instance or class method)
+FORWARD_METHOD_SRC = '''
+def callee(%(callee)s): pass
+class Base(object):
+    def outer(self, func, %(outer)s):
+        return func(%(args)s)
+    @classmethod
+    def couter(cls, func, %(outer)s):
+        return func(%(args)s)
+class Holder(Base):
+    pass
+outer = Holder().%(which)s
+'''
+
+# the callee is only the DEFAULT of a keyword-only parameter: neither the default nor a keyword bound by the
+# partial resolves it ("positionals resolve callee parameters, keywords do not")
+FORWARD_KWDEFAULT_SRC = '''
+def callee(%(callee)s): pass
+def other(p_, q_, r_): pass
+def outer(%(outer)s):
+    return func(%(args)s)
+'''
+
 
 @core.guarded(None)
 def check_forwarding_partial(ctx, oparams, cparams, by_keyword, dress=None):
@@ -165,7 +188,13 @@ def check_forwarding_partial(ctx, oparams, cparams, by_keyword, dress=None):
     ova = sigs.star_name(oparams, VA)
     ovk = sigs.star_name(oparams, VK)
     args = ', '.join((['*' + ova] if ova else []) + (['**' + ovk] if ovk else []))
-    src = FORWARD_SRC % dict(callee=sigs.render(cparams), outer=sigs.render(oparams), args=args, dress=dress_line)
+    placement = 'function'
+    if not dress and (len(oparams) * 3 + len(cparams)) % 4 == 0:
+        placement = ('outer', 'couter')[(len(oparams) + len(cparams)) % 2]
+        ctx.count('C19.forwarding_partials_over_bound_methods')
+        src = FORWARD_METHOD_SRC % dict(callee=sigs.render(cparams), outer=sigs.render(oparams), args=args, which=placement)
+    else:
+        src = FORWARD_SRC % dict(callee=sigs.render(cparams), outer=sigs.render(oparams), args=args, dress=dress_line)
     g = sigs.compile_module(src, tag='vpart')
     outer, callee = g['outer'], g['callee']
     if dress:
@@ -182,7 +211,8 @@ def check_forwarding_partial(ctx, oparams, cparams, by_keyword, dress=None):
         ctx.count('C19.forwarding_partials_stacked')
     rp = dict(workload='partial-forwarding', oparams=sigs.to_json(oparams), cparams=sigs.to_json(cparams),
               by_keyword=by_keyword, dress=dress)
-    w = {'outer': '%sdef outer(func, %s): return func(%s)' % (dress_line + ' ' if dress_line else '', sigs.render(oparams), args),
+    w = {'outer': '%sdef outer(%sfunc, %s): return func(%s)' % (dress_line + ' ' if dress_line else '', {'function': '', 'outer': 'self, ', 'couter': 'cls, '}[placement], sigs.render(oparams), args),
+         'placement': {'function': 'function', 'outer': 'bound method of an instance (inherited)', 'couter': 'classmethod through an instance (inherited)'}[placement],
          'callee': show_params(cparams), 'partial': 'partial(outer, func=callee)' if by_keyword else 'partial(outer, callee)'}
     ctx.evaluated()
     ctx.count('C19.forwarding_partials')
@@ -222,6 +252,42 @@ def check_forwarding_partial(ctx, oparams, cparams, by_keyword, dress=None):
             plain = signatures.signature(p)
         judge_forwarding_partial(ctx, sigtools, signatures, p, outer, callee, oparams, cparams, dress, ova, ovk, sig, plain, w, rp,
                                  bound=max(stacked, 1))
+
+
+@core.guarded(None)
+def check_forwarding_partial_kwdefault(ctx, oparams, cparams, rebind):
+    import sigtools
+    from sigtools import signatures
+    ova = sigs.star_name(oparams, VA)
+    ovk = sigs.star_name(oparams, VK)
+    args = ', '.join((['*' + ova] if ova else []) + (['**' + ovk] if ovk else []))
+    lst = list(oparams)
+    at = next((k for k, q in enumerate(lst) if q[1] == VK), len(lst))
+    lst.insert(at, ('func', KO, 'callee', None))
+    src = FORWARD_KWDEFAULT_SRC % dict(callee=sigs.render(cparams), outer=sigs.render(tuple(lst)), args=args)
+    g = sigs.compile_module(src, tag='vpart')
+    outer = g['outer']
+    cap = sigs.positional_capacity(oparams)
+    n = 1 if (cap or ova) else 0
+    kw = {'func': g['other']} if rebind else {}
+    p = functools.partial(outer, *([0] * n), **kw)
+    rp = dict(workload='partial-forwarding-kwdefault', oparams=sigs.to_json(oparams), cparams=sigs.to_json(cparams), rebind=rebind)
+    w = {'outer': 'def outer(%s): return func(%s)' % (sigs.render(tuple(lst)), args), 'callee': show_params(cparams),
+         'partial': 'partial(outer%s%s)' % (', 0' * n, ', func=other' if rebind else '')}
+    ctx.evaluated()
+    ctx.count('C19.forwarding_partials_callee_only_a_default')
+    try:
+        sig = sigtools.signature(p)
+        plain = signatures.signature(p)
+    except Exception as e:
+        V(ctx, 'forwarding-partial-raises', 'retrieval raised %s on a partial of a forwarding wrapper' % type(e).__name__,
+          dict(w, exception=repr(e)), rp)
+        return
+    ctx.nontrivial(('fwd-kwdefault', sigs.shape_key(oparams), sigs.shape_key(cparams), rebind, n))
+    if bparams(sig) != bparams(plain):
+        V(ctx, 'forwarding-partial-default-or-keyword-resolved',
+          'a callee that is only the default of a keyword-only parameter (or bound by keyword in the partial) was used to resolve the forwarding',
+          dict(w, result=show(sig), plain=show(plain)), rp)
 
 
 def case_no_mutation(oparams, cparams):
@@ -320,6 +386,8 @@ def run(ctx):
             break
         check_forwarding_partial(ctx, rnd.choice(outers), rnd.choice(callees), by_keyword=rnd.random() < 0.25,
                                  dress=rnd.choice((None, None, 'posoargs-func', 'kwoargs')))
+        if rnd.random() < 0.2:
+            check_forwarding_partial_kwdefault(ctx, rnd.choice(outers), rnd.choice(callees), rebind=rnd.random() < 0.5)
 
 
 def replay(ctx, rec):
@@ -329,6 +397,8 @@ def replay(ctx, rec):
         if nested:
             nested = (nested[0], tuple(nested[1]))
         check_partial(ctx, sigs.from_json(rec['fparams']), layers[0][0], tuple(layers[0][1]), nested=nested)
+    elif rec['workload'] == 'partial-forwarding-kwdefault':
+        check_forwarding_partial_kwdefault(ctx, sigs.from_json(rec['oparams']), sigs.from_json(rec['cparams']), rec['rebind'])
     else:
         check_forwarding_partial(ctx, sigs.from_json(rec['oparams']), sigs.from_json(rec['cparams']), rec['by_keyword'],
                                  dress=rec.get('dress'))
